@@ -77,7 +77,7 @@ func (fr *Frame) havocResults(name string, sig *types.Signature) []*Term {
 
 func (fr *Frame) callFunc(fn *ssa.Function, pos token.Pos, st *State, args []*Term, freeVars []*Term) []*Term {
 	ex := fr.ex
-	if sp := lookupSpec(fn); sp != nil {
+	if sp := lookupSpec(fn); sp != nil && !sp.Inline {
 		return fr.callBySpec(fn, sp, pos, st, args)
 	}
 	if !inScope(fn) {
@@ -416,7 +416,7 @@ type bulkSrc struct {
 func (fr *Frame) bulkSource(v *Term, T types.Type, st *State) bulkSrc {
 	switch u := T.Underlying().(type) {
 	case *types.Slice:
-		arr := Select(st.amem(u.Elem()), Acc("sbase", v))
+		arr := st.arr(u.Elem(), Acc("sbase", v))
 		off := Acc("soff", v)
 		return bulkSrc{n: Acc("slen", v), arr: arr, off: off, at: func(j *Term) *Term { return Select(arr, BVAdd(off, j)) }}
 	case *types.Basic: // string
